@@ -7,7 +7,7 @@ import itertools
 import numpy as np
 
 from props import wfm_harness as H
-from props.common import base_of, outcome
+from props.common import base_of, outcome, show
 
 PID = "C10"
 LEAN_MODULE = "NiVerif.Props.C10"
@@ -411,6 +411,55 @@ def run(ctx):
                               observed=f"{len(all_now)} timestamps in the shared Timing; bystander {world.snap(kind, b)[:120]}",
                               required=f"2 timestamps; bystander {snap_b[:120]}")
             ctx.case(("shared-timing", kind, how))
+    # irregular timestamps of different families in one append (datetime receiver, bintime / hightime source and every other pairing, values
+    # that the receiver's family cannot hold exactly): the receiver ends with exactly its timestamps followed by the source's OBJECTS' values,
+    # and the order check is made on those exact values
+    import hightime as _ht
+    import nitypes.bintime as _bt
+    from fractions import Fraction as _F
+    from nitypes.waveform import AnalogWaveform as _AW, DigitalWaveform as _DW, Timing as _T
+    u_ = dt.timezone.utc
+    def mkts(fam, secs):
+        """instants 2025-01-01 + secs (a Fraction of seconds), as exactly as the family allows; returns (objects, exact values in ticks of 2^-64 s or None)"""
+        out = []
+        for x in secs:
+            whole, frac = int(x // 1), x - (x // 1)
+            if fam == "dt":
+                out.append(dt.datetime(2025, 1, 1, tzinfo=u_) + dt.timedelta(seconds=whole, microseconds=int(frac * 10**6)))
+            elif fam == "ht":
+                out.append(_ht.datetime(2025, 1, 1, tzinfo=u_) + _ht.timedelta(seconds=whole, yoctoseconds=int(frac * 10**24)))
+            else:
+                out.append(_bt.DateTime(2025, 1, 1, tzinfo=u_) + _bt.TimeDelta.from_ticks(int(x * 2**64)))
+        return out
+    fine = _F(271, 10**9)                                       # 271 ns: no whole number of microseconds
+    for rf in ("dt", "ht", "bt"):
+        for sf in ("dt", "ht", "bt"):
+            for rsecs, ssecs, ok in (([_F(0), _F(1)], [_F(2) + fine, _F(3)], True), ([_F(5), _F(3)], [_F(3) + fine, _F(1)], False), ([_F(0), _F(2)], [_F(2) + fine], True),
+                                     ([_F(0), _F(2) + fine], [_F(2), _F(3)], sf == "dt" and rf == "dt"), ([_F(4)], [_F(4) + fine, _F(4) + 2 * fine], True)):
+                for how in ("waveform", "list", "array+timestamps"):
+                    rts, sts = mkts(rf, rsecs), mkts(sf, ssecs)
+                    # the families' own exactness: whether the case is monotonic is decided on the objects' exact values
+                    allv = rts + sts
+                    try:
+                        mono = all(a_ <= b_ for a_, b_ in zip(allv, allv[1:])) or all(a_ >= b_ for a_, b_ in zip(allv, allv[1:]))
+                    except Exception:                         # noqa: BLE001 - families that cannot be compared are not this section's business
+                        continue
+                    recv = _AW.from_array_1d(np.arange(len(rts), dtype=np.float64), np.float64, timing=_T.create_with_irregular_interval(rts))
+                    src = _AW.from_array_1d(np.arange(len(sts), dtype=np.float64), np.float64, timing=_T.create_with_irregular_interval(sts))
+                    o = outcome(lambda: recv.append(src) if how == "waveform" else recv.append([src]) if how == "list" else recv.append(src.raw_data, sts))
+                    got = list(recv.timing.get_timestamps(0, recv.sample_count))
+                    ctx.case(("mixed-family-irregular", rf, sf, str(rsecs), str(ssecs), how))
+                    if how == "array+timestamps" and o[0] == "err" and o[1] == "TypeError":
+                        continue                              # the array path may ask for the receiver's own family
+                    if mono:
+                        good = o[0] == "ok" and len(got) == len(allv) and all(g == w_ and type(g) is type(w_) for g, w_ in zip(got, allv)) and sts == mkts(sf, ssecs)
+                    else:
+                        good = o[0] == "err" and o[1] == "ValueError" and got == rts and recv.sample_count == len(rts)
+                    if not good:
+                        ctx.violation(what="append of irregular timestamps of another family", receiver_family=rf, source_family=sf, how=how, receiver_offsets=str([float(x) for x in rsecs]),
+                                      source_offsets=str([float(x) for x in ssecs]), observed=f"{show(o)[:80]} timestamps={[str(g) for g in got]}"[:300],
+                                      required=("the receiver's timestamps followed by the source's, unchanged in value and type" if mono else "ValueError (not monotonic), receiver unchanged"))
+                        break
     # seeded repeated appends
     w = {"appa": 3, "appw": 8, "load": 1, "setcount": 1, "setcap": 1, "settiming": 2, "write": 0, "get": 0, "pickle": 0, "bad": 0}
     mark = len(world.records)
